@@ -14,8 +14,12 @@ def run(tier):
     rep = vlib.Report(PROP, tier)
     binary = vlib.build_harness()
     d, cases, outs = common.mc_replay(rep, binary, PROP, "MC_C03", keyf=key_of)
+    # across record boundaries: every ordered pair / triple of content types through the multi-record entry point
+    common.mc_replay(rep, binary, PROP, "MC_C03_Seq", keyf=lambda c: "seq:%s" % "-".join(str(x) for x in c["note"]["types"]), run="seq", nchunks=4)
     # (b) impl -> spec: value-level mutations of the accepted payloads, the crate's answer compared with the specification's
     common.dfuzz(rep, binary, PROP, cases, 3000 if tier != "thorough" else 60000)
+    # (growth) every length of the variable-size fields, not only the boundaries (MC_LenSweep)
+    common.len_sweep(rep, binary, PROP)
     return rep.finish("model_checking",
                       "cases = payloads built from pools of well-formed and malformed messages (lists of 0..3 items + tails, "
                       "every truncation of well-formed payloads, heartbeat/application-data/unknown content types) x "
